@@ -1401,6 +1401,23 @@ bool XMLReader::setEncoding(const XMLCh* const newEncoding)
         newBaseEncoding = XMLRecognizer::encodingForName(inputEncoding);
 
         //
+        //  An endian specific UTF-16 or UCS-4 name is as much of a
+        //  contradiction as the generic ones above if that is not what we
+        //  auto-sensed: the declaration could not have been read at all in
+        //  such an entity, and the raw bytes still to be decoded are not
+        //  even aligned on its code units.
+        //
+        if (((newBaseEncoding == XMLRecognizer::UTF_16L)
+        ||   (newBaseEncoding == XMLRecognizer::UTF_16B)
+        ||   (newBaseEncoding == XMLRecognizer::UCS_4L)
+        ||   (newBaseEncoding == XMLRecognizer::UCS_4B))
+        &&  (newBaseEncoding != fEncoding))
+        {
+            fMemoryManager->deallocate(inputEncoding);
+            return false;
+        }
+
+        //
         //  If it does not come back as one of the auto-sensed encodings, then we
         //  have to possibly replace it and at least check a few things.
         //
